@@ -18,7 +18,9 @@ assignment of the new ramp must be reachable exactly in the documented accept se
 delta >= 10000). A2: on acceptance initial_amp := current amp (compute_amp_factor of the stored ramp at the current
 height), initial_amp_block := block height, future_amp/future_amp_block := the requested values. A3: the three-asset
 direction tables of swap, simulation and reverse simulation are permutations and agree (shared with C14). Solvency,
-D-per-LP monotonicity, there-and-back and linearity of the interpolation are numerical and not decided. The shared pool clauses V1 (pending fees excluded wherever pool balances are
+D-per-LP monotonicity and there-and-back are numerical and not decided. A4: the operator tree of compute_amp_factor's
+interpolation is initial +/- (|target-initial| * (current-start)) / (stop-start), product before division, range ordered per
+branch (shape only; the value is not evaluated). The shared pool clauses V1 (pending fees excluded wherever pool balances are
 read), V3 (funds validated before pricing, deposits excluded/pulled), V4 (minimum liquidity locked in the pool on the
 first deposit, nothing but Mint/Burn sent to the LP token) and V5 (floor-family rounding only) are decided for the 3-pool
 exactly as for the pair under C01.
@@ -30,6 +32,12 @@ UC = "stableswap_3pool::commands::update_config"
 
 def run(ctx):
     model = ctx.model()
+    # the withdraw hook only honours the LP token itself (else a foreign cw20 could burn the locked minimum stake)
+    from .C16 import check_hook_authorisation
+    from .poolvalue import check_direct_withdraw
+    check_direct_withdraw(ctx, model, "C04-V4", "stableswap_3pool::contract::execute", r"^stableswap_3pool::commands::withdraw_liquidity$", "stableswap_3pool::state::TRIO_INFO", ("liquidity_token", "#NativeToken", "denom"))
+    check_hook_authorisation(ctx, model, rule="C04-V4", only={"stableswap_3pool"})
+    check_interpolation_wiring(ctx, model)
     v = ctx.view(UC, "C04-A1")
     if v is None:
         return
@@ -110,7 +118,41 @@ def run(ctx):
     check_v1_pools(ctx, model, T, "C04-V1")
     from .poolvalue import check_fee_lookup_same_asset
     check_fee_lookup_same_asset(ctx, model, T, "C04-V1")
+    from .poolvalue import check_raw_balance_single_consumer
+    check_raw_balance_single_consumer(ctx, model, T, "C04-V1")
     check_v2_v3_pool(ctx, model, T, "C04-V3")
     check_v4_min_liquidity(ctx, model, "%s::commands::provide_liquidity" % T, "C04-V4")
     check_no_lp_outflow(ctx, model, T, "C04-V4", "liquidity_token")
     check_v5_rounding(ctx, model, ["%s::commands::provide_liquidity" % T, "%s::commands::withdraw_liquidity" % T, "%s::helpers::compute_swap" % T], "C04-V5")
+
+
+AMP = "stableswap_3pool::stableswap_math::curve::StableSwap::compute_amp_factor"
+
+
+def check_interpolation_wiring(ctx, model):
+    """A4: the operator tree of the ramp interpolation. In both ramp branches the value returned is
+    initial +/- ((|target - initial| * (current - start)) / (stop - start)): the product is formed BEFORE the division
+    (dividing first truncates the step to zero for every realistic ramp), the range is target-initial on the branch
+    that adds and initial-target on the branch that subtracts. Spelling (checked_*/operators, conversions, operand order
+    of commutative operations) is normalised away; the numerical result is not evaluated."""
+    from ..dataflow import expr_shape, norm_shape
+    v = ctx.view(AMP, "C04-A4")
+    if v is None:
+        return
+    P = lambda f: "param(1).%s" % f
+    td = ("sub", (P("current_ts"), P("start_ramp_ts")))
+    tr = ("sub", (P("stop_ramp_ts"), P("start_ramp_ts")))
+    want = {}
+    for name, rng in (("add", ("sub", (P("target_amp_factor"), P("initial_amp_factor")))), ("sub", ("sub", (P("initial_amp_factor"), P("target_amp_factor"))))):
+        delta = ("div", (norm_shape(("mul", (rng, td))), tr))
+        want[name] = norm_shape((name, (P("initial_amp_factor"), delta)))
+    found = {}
+    for b, t in v.iter_calls():
+        if t["dest"]["l"] == 0 and not t["dest"]["p"] and not mname(t).endswith("::from_residual"):
+            sh = norm_shape((re.sub(r"^.*::", "", mname(t)), tuple(expr_shape(v, a, v.at_term(b)) for a in t["args"])))
+            found.setdefault(sh[0], []).append((b, sh))
+    for name in ("add", "sub"):
+        got = found.get(name, [])
+        ok = len(got) == 1 and got[0][1] == want[name]
+        ctx.ob("C04-A4", "%s|ramp-%s|multiply-before-divide" % (AMP, "up" if name == "add" else "down"), ok,
+               "returned value %s (expected %s)" % ([g[1] for g in got], want[name]), v.where(got[0][0]) if got else v.where())
